@@ -9,6 +9,7 @@
 From Coq Require Import ZArith List Bool Lia.
 From Perf Require Import Base.B64 Model.UStat Model.UDistSpec Model.UDistImpl Model.UTest.
 From Perf Require Import Proofs.UStat Proofs.UDistSpec Proofs.UDistImpl Proofs.UTest.
+From Perf Require Import Proofs.UDistSum Proofs.UDistPrune Proofs.UTestExact Proofs.UDistUntied.
 Import ListNotations.
 Local Open Scope Z_scope.
 
@@ -80,20 +81,86 @@ Theorem C11_k2_base_case_correct : forall t1 t2 n u, 0 <= t1 -> 0 <= t2 -> 0 < t
 Proof. exact base2_correct. Qed.
 Print Assumptions C11_k2_base_case_correct.
 
-(** tied_recurrence_correct for the recurrence with the code's coefficients, r_k
-    ranges and base case, WITHOUT the pruning of table keys by twoUmin/twoUmax:
-    for every tie vector with K >= 2 positive runs, every n1 and every 2U.
-    _partial: the full statement is
-      forall t, Forall (1 <=) t -> 2 <= length t -> forall n u, umemo t n u = count_le t n u
-    (with pruning and the "beyond max => C(tsum,n1)" default); missing are the greedy
-    extremality of twoUmin/twoUmax and Vandermonde's identity. It is checked for
-    every tie vector with N <= 8 in Proofs/UTest.v (pruning_agrees_bounded) and on
-    every generated case by the correspondence run. *)
-Theorem C11_tied_recurrence_correct_partial : forall t,
+(** the recurrence with the code's coefficients, r_k ranges and base case, without
+    the pruning of table keys (intermediate step, kept) *)
+Theorem C11_tied_recurrence_unpruned : forall t,
   Forall (fun x => 1 <= x) t -> (2 <= length t)%nat ->
   forall n u, umemo_unpruned t n u = count_le t n u.
 Proof. exact tied_recurrence_unpruned. Qed.
-Print Assumptions C11_tied_recurrence_correct_partial.
+Print Assumptions C11_tied_recurrence_unpruned.
+
+(** the pruning lemma: every count vector has twoUmin <= 2U <= twoUmax (the greedy
+    fillings are extremal because a_k increases with k) *)
+Theorem C11_pruning_lemma : forall t n r, Forall (fun x => 0 <= x) t -> In r (vecs t n) ->
+  twoUmin n (levels t) <= twoU_of t r <= twoUmax n (levels t).
+Proof. exact twoU_between. Qed.
+Print Assumptions C11_pruning_lemma.
+
+(** tied_recurrence_correct: makeUmemo's table entry (keys pruned by twoUmin/twoUmax,
+    "beyond max => C(tsum, n1)" and "below min => 0" for absent keys, repaired K == 2
+    base case) is the number of choices with 2U <= u: every tie vector with K >= 2
+    positive runs, every n1, every u *)
+Theorem C11_tied_recurrence_correct : forall t,
+  Forall (fun x => 1 <= x) t -> (2 <= length t)%nat ->
+  forall n u, umemo t n u = count_le t n u.
+Proof. exact tied_recurrence_correct. Qed.
+Print Assumptions C11_tied_recurrence_correct.
+
+(** Vandermonde: the choices counted by the specification are all C(N, n1) of them *)
+Theorem C11_all_choices_counted : forall t, Forall (fun x => 0 <= x) t -> forall n, count_all t n = total t n.
+Proof. exact count_all_total. Qed.
+Print Assumptions C11_all_choices_counted.
+
+(** the distribution function is 1 from U = n1 n2 on, and 0 below U = 0 *)
+Theorem C11_cdf_reaches_one : forall t n u, Forall (fun x => 0 <= x) t ->
+  2 * (n * (zsum t - n)) <= u -> count_le t n u = total t n.
+Proof. exact count_le_top. Qed.
+Print Assumptions C11_cdf_reaches_one.
+Theorem C11_cdf_zero_below : forall t n u, Forall (fun x => 0 <= x) t -> u < 0 -> count_le t n u = 0.
+Proof. exact count_le_below. Qed.
+Print Assumptions C11_cdf_zero_below.
+
+(** pmf_sums_to_one: the masses at 2U = 0, 1, .., 2 n1 n2 add up to all choices *)
+Theorem C11_pmf_sums_to_one : forall t n, Forall (fun x => 0 <= x) t -> 0 <= n <= zsum t ->
+  sumf (fun u => count_eq t n u) (zrange 0 (2 * (n * (zsum t - n)))) = total t n.
+Proof. exact pmf_sums_to_one. Qed.
+Print Assumptions C11_pmf_sums_to_one.
+
+(** UDist.CDF / UDist.PMF on a tied distribution (model of the wrappers, all range
+    checks included) are the exact fractions count / C(N, n1); q = 4U *)
+Theorem C11_cdf_tied_exact : forall t n1 n2 q,
+  Forall (fun x => 1 <= x) t -> (2 <= length t)%nat -> has_ties t = true ->
+  zsum t = n1 + n2 -> 0 <= n1 -> 0 <= n2 ->
+  frac_eq (cdf n1 n2 t q) (count_le t n1 (q / 2)) (total t n1).
+Proof. exact cdf_tied_exact. Qed.
+Print Assumptions C11_cdf_tied_exact.
+Theorem C11_pmf_tied_exact : forall t n1 n2 q,
+  Forall (fun x => 1 <= x) t -> (2 <= length t)%nat -> has_ties t = true ->
+  zsum t = n1 + n2 -> 0 <= n1 -> 0 <= n2 -> 0 <= q -> q < 4 * (n1 * n2) + 2 ->
+  frac_eq (pmf n1 n2 t q) (count_eq t n1 (q / 2)) (total t n1).
+Proof. exact pmf_tied_exact. Qed.
+Print Assumptions C11_pmf_tied_exact.
+
+(** one_sided_exact, tied exact path: for all samples with ties and at least two
+    distinct values the model's Less / Greater p-values are P(U <= u) / P(U >= u) *)
+Theorem C11_one_sided_exact_tied : forall x1 x2,
+  let s := ustat_of x1 x2 in
+  us_hasTies s = true -> (2 <= length (us_T s))%nat ->
+  pfrac_eq (exact_p s Less) (count_le (us_T s) (us_n1 s) (us_twoU1 s)) (total (us_T s) (us_n1 s))
+  /\ pfrac_eq (exact_p s Greater) (count_ge (us_T s) (us_n1 s) (us_twoU1 s)) (total (us_T s) (us_n1 s)).
+Proof. exact one_sided_exact_tied. Qed.
+Print Assumptions C11_one_sided_exact_tied.
+
+(** untied distribution: the Mann-Whitney recurrence that UDist.p runs is a counting
+    identity of the specification (c_{n,m}(u) = choices of n out of n+m untied values
+    with U = u). untied_dp_correct _partial: that the model's table organisation
+    ([p_counts]) computes c is a bounded sweep n, m <= 6 (p_counts_agree_bounded) plus the
+    correspondence run; the float64 rounding of the code's scaled form is compared by
+    tolerance only. *)
+Theorem C11_mann_whitney_recurrence : forall n m u, 1 <= n -> 1 <= m ->
+  cuntied n m u = cuntied (n - 1) m (u - m) + cuntied n (m - 1) u.
+Proof. exact mann_whitney_recurrence. Qed.
+Print Assumptions C11_mann_whitney_recurrence.
 
 (** the distribution function accumulates the mass function (half-integer steps: u is 2U) *)
 Theorem C11_cdf_accumulates_pmf : forall t n u,
@@ -102,7 +169,7 @@ Proof. exact count_le_step. Qed.
 Print Assumptions C11_cdf_accumulates_pmf.
 
 (** upper and lower tails partition all choices (so 1 - CDF(U - 1/2) is the upper tail,
-    given total = count_all: Vandermonde, bounded check total_is_count_all_bounded) *)
+    given total = count_all: C11_all_choices_counted) *)
 Theorem C11_upper_tail_complement : forall t n u,
   count_ge t n u + count_le t n (u - 1) = count_all t n.
 Proof. exact count_ge_le. Qed.
